@@ -33,8 +33,13 @@ def _tuple(v: Any) -> tuple[Any, ...]:
     return v if isinstance(v, tuple) else (v,)
 
 
+def _wide(l: Any) -> np.ndarray:
+    a = np.asarray(l)
+    return a.astype(np.complex128) if np.iscomplexobj(a) else a.astype(np.float64)
+
+
 def np_leaves(x: Any) -> list[np.ndarray]:
-    return [np.asarray(l, dtype=np.float64) for l in jax.tree.leaves(x)]
+    return [_wide(l) for l in jax.tree.leaves(x)]
 
 
 def np_index(indices: tuple[Any, ...]) -> tuple[Any, ...]:
@@ -203,7 +208,7 @@ def ref_toeplitz(op: Any, x: Any) -> list[np.ndarray]:
 
 def _stokes_parts(x: Any) -> tuple[str, dict[str, np.ndarray]]:
     kind = type(x).stokes
-    return kind, {c: np.asarray(getattr(x, c.lower()), dtype=np.float64) for c in kind}
+    return kind, {c: _wide(getattr(x, c.lower())) for c in kind}
 
 
 def ref_hwp(op: Any, x: Any) -> list[np.ndarray]:
